@@ -464,3 +464,12 @@ def reduce_clang_type(q, enum_underlying=None):
     if re.match(r'^[A-Za-z_]\w*$', s):
         return ('record', '', ptr)
     return None
+
+
+def report(ctx, key, what, files=None, cmd=None, cap=60):
+    """ctx.violation with a cap on the number of replay directories written by one run (a broken build can
+    produce tens of thousands of mismatches); known findings are always passed through"""
+    if key in ctx.known or len(ctx.violations) < cap:
+        return ctx.violation(key, what, files=files, cmd=cmd)
+    ctx.count('violations_beyond_cap', 'detected but not written (cap %d)' % cap)
+    return True
